@@ -16,6 +16,19 @@ def run_property(prop, tier, root, quiet=False):
     run = Run(prop, tier, repo, seed=int(os.environ.get('VERIF_SEED', '0') or 0))
     run.quiet = quiet
     mod.check(run)
+    # the behaviour behind a property also rests on the mechanisms of the properties it builds on: their structural
+    # conditions are necessary conditions here too, so their rule instances are evaluated under this property as well
+    from .registry import DEPENDS
+    done = {prop}
+    todo = list(DEPENDS.get(prop, []))
+    while todo:
+        d = todo.pop(0)
+        if d in done:
+            continue
+        done.add(d)
+        run.notes.append('includes the rule instances of %s (a mechanism this property rests on)' % d)
+        importlib.import_module('pcverif.props.%s' % d).check(run)
+        todo.extend(DEPENDS.get(d, []))
     code = run.finish(level='other', explanation=getattr(mod, 'EXPLANATION', ''),
                       trusted=getattr(mod, 'TRUSTED', None))
     return code, run
